@@ -22,6 +22,7 @@ type Frame struct {
 	K     string `json:"k"`               // js | nat
 	Catch string `json:"catch,omitempty"` // "" | swallow | rethrow | new
 	Fin   bool   `json:"fin,omitempty"`
+	FA    string `json:"fa,omitempty"` // what the finally block does after logging: "" | throw | return
 	En    string `json:"en,omitempty"` // fc refl reflerr ctor proxy dyn getter
 	Cb    string `json:"cb,omitempty"` // callable ctor runstring exporterr exportnoerr get tryget forof
 	H     string `json:"h,omitempty"`  // panicerr panicvalue panicwrap returnerr returnwrap returnjoin
@@ -108,9 +109,12 @@ func normFrames(fs []Frame, firstMustBeJS, lastMustBeJS bool) []Frame {
 			if f.S < 1 || f.S > 3 {
 				f.S = 1
 			}
-			f.Catch, f.Fin = "", false
+			f.Catch, f.Fin, f.FA = "", false, ""
 		} else {
 			f.K = "js"
+			if !f.Fin || (f.FA != "throw" && f.FA != "return") {
+				f.FA = ""
+			}
 			f.En, f.Cb, f.H, f.S = "", "", "", 0
 		}
 		out = append(out, f)
@@ -187,7 +191,8 @@ func coqFrame(f Frame) string {
 		case "new":
 			c = "(Some CThrowNew)"
 		}
-		return fmt.Sprintf("FJS (mkJS %s %s)", c, vh.CoqBool(f.Fin))
+		fa := map[string]string{"": "FinQuiet", "throw": "FinThrow", "return": "FinReturn"}[f.FA]
+		return fmt.Sprintf("FJS (mkJS %s %s %s)", c, vh.CoqBool(f.Fin), fa)
 	}
 	h := map[string]string{"panicerr": "HPanicErr", "panicvalue": "HPanicValue", "panicwrap": "HPanicWrap",
 		"returnerr": "HReturnErr", "returnwrap": "HReturnWrap"}[f.H]
@@ -682,6 +687,12 @@ func runCase(c0 Case) vh.Record {
 		}
 		if f.Fin {
 			emit(fmt.Sprintf("} finally { LOGF(%d);", i))
+			switch f.FA {
+			case "throw":
+				emit(fmt.Sprintf("throw {freshfin: %d};", i))
+			case "return":
+				emit("return 0;")
+			}
 		}
 		if f.Catch != "" || f.Fin {
 			emit("}")
@@ -878,6 +889,9 @@ func runCase(c0 Case) vh.Record {
 		} else if f.Catch != "" || f.Fin {
 			nTry++
 			ts = []string{"js:catch=" + f.Catch + fmt.Sprintf(",fin=%v", f.Fin)}
+			if f.FA != "" {
+				ts = append(ts, "js:finally-"+f.FA)
+			}
 		}
 		for _, t := range ts {
 			if !seenTag[t] {
@@ -971,6 +985,14 @@ func genFrames(r *vh.Rng, n int, startJS bool) []Frame {
 				f.Catch = "new"
 			}
 			f.Fin = r.Chance(40)
+			if f.Fin {
+				switch r.Pick(76, 12, 12) {
+				case 1:
+					f.FA = "throw"
+				case 2:
+					f.FA = "return"
+				}
+			}
 			fs = append(fs, f)
 			js = r.Chance(12)
 		} else {
